@@ -396,7 +396,7 @@ class Sim:
             pass
 
 
-FLAGS = ("guard", "clocks", "prev", "start", "gate", "err")
+FLAGS = ("guard", "clocks", "prev", "start", "gate", "err", "once", "idle")
 
 
 def cfg_line(cfg: dict, mode: str) -> str:
@@ -404,7 +404,7 @@ def cfg_line(cfg: dict, mode: str) -> str:
     mode c08 addresses Driver/RunStateOut, the other modes Driver/RunState."""
     b = lambda x: "1" if x else "0"  # noqa: E731
     safes = ",".join("_" if s is None else str(s) for s in SAFES)
-    fl = "\t".join(b(cfg.get(k)) for k in FLAGS)
+    fl = "".join(b(cfg.get(k)) for k in FLAGS)
     init = ",".join(str(v) for v in INIT)
     if mode == "c08":
         return f"cfg\t{fl}\t{safes}\t{init}"
@@ -487,7 +487,21 @@ def probe() -> dict[str, bool]:
     _, _, r = execute({"method": "Mark: a", "ops": [["user", "Start"], ["tick", 8, 8, 0], ["user", "W0"],
                                                      ["tick", 8, 8, 0], ["errapi"], ["tick", 8, 8, 0]]}, "c08", {})
     err = r[-1]["writes"][-1][0][0] == SAFES[0]
-    return {"guard": guard, "clocks": clocks, "prev": prev, "start": start, "gate": gate, "err": err}
+    # once: does a Pause body that runs while already paused keep the snapshot of the pause onset
+    sim = Sim("Mark: a")
+    try:
+        for op in [["user", "Start"], ["tick", 8, 8, 0], ["set", 0, 33], ["user", "Pause"], ["user", "Pause"],
+                   ["tick", 8, 8, 0]]:
+            sim.do(op, "c09")
+        ps = sim.e._prev_state
+        once = ps is not None and ps.has(REGS[0]) and ps.get(REGS[0]).value == 33
+    finally:
+        sim.close()
+    # idle: does an error with no run active leave System State Stopped
+    _, _, r = execute({"method": "Mark: a", "ops": [["errapi"]]}, "c06", {})
+    idle = r[-1]["state"] == "Stopped"
+    return {"guard": guard, "clocks": clocks, "prev": prev, "start": start, "gate": gate, "err": err,
+            "once": once, "idle": idle}
 
 
 # ---------------------------------------------------------------------------------------
